@@ -142,6 +142,14 @@ pub fn step(ex: &mut Exec, ix: usize, op: &Op) {
                 Ok(x) => x,
                 Err(p) => {
                     ex.rec(ix, op, &p.render());
+                    if ex.on_prop("C16") && !p.is_hook_assert() {
+                        // does a fresh instance panic on this pair too? if not, the value (here: the
+                        // panic) depends on what was compared before
+                        let (a2, ca2, b2, cb2) = (a.clone(), ca.clone(), b.clone(), cb.clone());
+                        if let Ok(fresh) = ex.pristine_ref(move || distance(&DamerauLevenshtein::new(), &a2, &ca2, &b2, &cb2)) {
+                            ex.viol("C16", "C16.history", ix, &p.loc, p.render(), format!("{:?} from a fresh instance", fresh));
+                        }
+                    }
                     ex.panicked(ix, &p);
                     return;
                 }
@@ -229,6 +237,52 @@ pub fn step(ex: &mut Exec, ix: usize, op: &Op) {
                 }
             }
         }
+        Op::Burst { t, a, ca, b, cb, n } => {
+            if ex.thread(*t).is_none() {
+                return;
+            }
+            ex.out.executed += 1;
+            let a: Vec<char> = a.chars().collect();
+            let b: Vec<char> = b.chars().collect();
+            let ca: Vec<char> = ca.chars().collect();
+            let cb: Vec<char> = cb.chars().collect();
+            let n = *n;
+            let (a2, ca2, b2, cb2) = (a.clone(), ca.clone(), b.clone(), cb.clone());
+            let res = ex.thread(*t).unwrap().run(move || {
+                with_inst(|d, _| {
+                    let first = distance(d, &a, &ca, &b, &cb);
+                    let mut odd: Option<(usize, f64)> = None;
+                    for k in 1..n {
+                        let v = distance(d, &a, &ca, &b, &cb);
+                        if odd.is_none() && v.to_bits() != first.to_bits() {
+                            odd = Some((k, v));
+                        }
+                    }
+                    (first, odd)
+                })
+            });
+            match res {
+                Ok((first, odd)) => {
+                    ex.rec(ix, op, &format!("{:?} x{}", first, n));
+                    if ex.on_prop("C16") {
+                        ex.out.evals += 1;
+                        ex.out.nontrivial = true;
+                    }
+                    if let Some((k, v)) = odd {
+                        ex.viol("C16", "C16.history", ix, "", format!("repetition {} of the same comparison gives {:?}", k, v), format!("{:?} as the first time: the value must not depend on what was compared before", first));
+                    }
+                }
+                Err(p) => {
+                    ex.rec(ix, op, &p.render());
+                    if ex.on_prop("C16") && !p.is_hook_assert() {
+                        if let Ok(fresh) = ex.pristine_ref(move || distance(&DamerauLevenshtein::new(), &a2, &ca2, &b2, &cb2)) {
+                            ex.viol("C16", "C16.history", ix, &p.loc, p.render(), format!("{:?} from a fresh instance", fresh));
+                        }
+                    }
+                    ex.panicked(ix, &p);
+                }
+            }
+        }
         Op::Jacc { t, a, b } => {
             if ex.thread(*t).is_none() {
                 return;
@@ -239,7 +293,17 @@ pub fn step(ex: &mut Exec, ix: usize, op: &Op) {
             let (a1, b1) = (a.clone(), b.clone());
             let res = ex.thread(*t).unwrap().run(move || {
                 with_inst(|_, j| {
-                    let ab = j.similarity(&a1, &b1);
+                    // aliasing is legal for shared slices: when one sequence is a prefix (or suffix) of
+                    // the other, both arguments are cut from ONE buffer
+                    let ab = if !b1.is_empty() && a1.starts_with(&b1) {
+                        j.similarity(&a1, &a1[..b1.len()])
+                    } else if !b1.is_empty() && a1.ends_with(&b1) {
+                        j.similarity(&a1, &a1[a1.len() - b1.len()..])
+                    } else if !a1.is_empty() && b1.starts_with(&a1) {
+                        j.similarity(&b1[..a1.len()], &b1)
+                    } else {
+                        j.similarity(&a1, &b1)
+                    };
                     // repetitions and order must not matter: a reversed and doubled, b rotated
                     let mut a2: Vec<char> = a1.iter().rev().cloned().collect();
                     a2.extend(a1.iter());
